@@ -19,7 +19,7 @@ for meta in sorted(glob.glob(os.path.join(VERIF, 'seeded', '*', 'meta.json'))):
         continue
     if not m.get('confirmed', True):
         continue
-    wt = '/tmp/sr_%s' % m['name']
+    wt = '/tmp/sr_%s_%d' % (m['name'], os.getpid())
     subprocess.run('git -C /repo worktree remove --force %s' % wt, shell=True, capture_output=True)
     subprocess.run('git -C /repo worktree add -q %s HEAD' % wt, shell=True, check=True)
     try:
